@@ -21,6 +21,7 @@ type simOutcome struct {
 	stats       simrt.Stats
 	bubblePanic string // synctest's end-of-bubble deadlock report or an escaped panic
 	rootPanic   string
+	escaped     string // a panic that escaped a goroutine of the system: the server process would have died
 	aborted     bool
 }
 
@@ -55,6 +56,7 @@ func runSim(t *testing.T, s *Sched, body func()) (out simOutcome) {
 		}()
 		out.aborted = simrt.Aborted()
 		out.stats = simrt.Stop()
+		out.escaped = simrt.EscapedPanic()
 	})
 	return out
 }
